@@ -1,6 +1,7 @@
 (* C02 — Encoding produces the canonical FM-94 bit stream for the given values.
    Statements only. *)
 From PBK Require Import Base Bits BitsProofs Descr Walk Coder Float53 Decode Encode Spec SpecProofs.
+From PBK Require Import Column ColumnProofs DecodeC EncodeC SpecC SpecCProofs SpecCCanon SpecCExamples.
 
 (* Whenever the encoder accepts a value list for a template (any template: all
    operators, bitmaps, nested replication; any number of subsets), the data bits
@@ -48,3 +49,204 @@ Theorem C02_fields_read_back : forall fs o t,
             read_fields fs (e ++ t) = Ok (map field_value fs, t).
 Proof. exact fields_roundtrip. Qed.
 Print Assumptions C02_fields_read_back.
+
+(* ==========================================================================
+   COMPRESSED data (SpecC.v): every element of the template is one COLUMN over
+   all subsets.
+   ========================================================================== *)
+
+(* Whenever the compressed encoder accepts the value lists for a template (any
+   template: all operators, bitmaps, nested and delayed replication; any number
+   of subsets), the data bits it writes are bit for bit the concatenation,
+   column after column in template order (one column per decoded element,
+   replications expanded), of the fields of the canonical column layout; the
+   descriptors and attribute links it records are those of the layout. *)
+Theorem C02_encode_canonical_compressed : forall T vals outs w,
+  encode_compressed T vals = Ok (outs, w) ->
+  exists fs, layout_c T vals = Ok (outs, fs) /\ write_fields fs [] = Ok w.
+Proof. exact encode_canonical_compressed. Qed.
+Print Assumptions C02_encode_canonical_compressed.
+
+(* the same, column by column *)
+Theorem C02_encode_canonical_columns : forall T vals outs w,
+  encode_compressed T vals = Ok (outs, w) ->
+  exists cols, layout_cols T vals = Ok (outs, cols) /\ write_fields (flat_map col_fields cols) [] = Ok w.
+Proof. exact encode_canonical_columns. Qed.
+Print Assumptions C02_encode_canonical_columns.
+
+Theorem C02_encode_is_canonical_bits_c : forall T vals outs w,
+  encode_compressed T vals = Ok (outs, w) -> canonical_bits_c T vals = Ok w.
+Proof. exact encode_is_canonical_bits_c. Qed.
+Print Assumptions C02_encode_is_canonical_bits_c.
+
+(* non-vacuity: a template with a delayed and a fixed replication, 3 subsets with
+   missing entries; the encoder accepts, and the layout has these 8 columns *)
+Example C02_compressed_nonvacuous :
+  exists outs w, encode_compressed spc_T spc_vals = Ok (outs, w) /\ length w = 295%nat /\
+                 canonical_bits_c spc_T spc_vals = Ok w.
+Proof. exact spc_encoder_accepts. Qed.
+Example C02_compressed_columns :
+  exists outs, layout_cols spc_T spc_vals = Ok (outs, spc_cols) /\ length outs = 3%nat.
+Proof. exact spc_layout_cols. Qed.
+
+(* ---- what makes the column layout canonical ------------------------------------ *)
+
+(* every field of the layout is within the range of its width: nothing is
+   wrapped or clipped *)
+Theorem C02_compressed_fields_in_range : forall T vals outs cols,
+  layout_cols T vals = Ok (outs, cols) -> forallb emit_ok (flat_map col_fields cols) = true.
+Proof. exact layout_fields_in_range. Qed.
+Print Assumptions C02_compressed_fields_in_range.
+
+(* A numeric / code-flag column of the layout (one entry per subset): the base
+   field is the MINIMUM of the present values (attained, a lower bound), all ones
+   when no subset has a value; the 6-bit width is 0 exactly for the columns
+   flagged all-equal (their entries are all the same and there are no
+   increments); otherwise it is the LEAST width whose all-ones pattern lies
+   strictly above max - min + 1, and there is one increment per subset: all ones
+   for a missing entry, and for a present one base + increment is the entry and
+   the increment is never all ones. *)
+Theorem C02_compressed_num_column_canonical : forall T vals outs cols w ae raws,
+  layout_cols T vals = Ok (outs, cols) -> In (ColNum w ae raws) cols ->
+  length raws = length vals /\
+  exists base wd incs,
+    col_fields (ColNum w ae raws) = FUint w base :: FUint 6 wd :: map (FUint wd) incs /\
+    (0 < w)%Z /\ (0 <= base < 2 ^ w)%Z /\ (0 <= wd < 64)%Z /\
+    ((forall v, In v raws -> v = None) -> base = (2 ^ w - 1)%Z) /\
+    ((exists x, In (Some x) raws) -> In (Some base) raws) /\
+    (forall x, In (Some x) raws -> (base <= x)%Z) /\
+    (wd = 0%Z <-> ae = true) /\
+    (ae = true -> incs = [] /\ forall v, In v raws -> v = hd None raws) /\
+    (ae = false ->
+       exists mx, In (Some mx) raws /\ (forall x, In (Some x) raws -> (x <= mx)%Z) /\
+                  (mx - base + 2 < 2 ^ wd)%Z /\
+                  forall k, (0 <= k)%Z -> (mx - base + 2 < 2 ^ k)%Z -> (wd <= k)%Z) /\
+    (ae = false ->
+       Forall2 (fun v d => match v with
+                           | None => d = (2 ^ wd - 1)%Z
+                           | Some x => (base + d)%Z = x /\ (0 <= d < 2 ^ wd - 1)%Z
+                           end) raws incs).
+Proof. exact layout_num_column_canonical. Qed.
+Print Assumptions C02_compressed_num_column_canonical.
+
+(* A character column: all strings equal -> the string (all ones when missing)
+   and width 0; otherwise a NUL base, the field length in OCTETS as width, and
+   every string in full (all ones when missing; padded / cut by C02_bytes_field_bits). *)
+Theorem C02_compressed_str_column_canonical : forall T vals outs cols nb ae strs,
+  layout_cols T vals = Ok (outs, cols) -> In (ColStr nb ae strs) cols ->
+  length strs = length vals /\ (0 <= nb)%Z /\
+  (ae = true ->
+     col_fields (ColStr nb ae strs) = [FBytes nb (str_val nb (hd None strs)); FUint 6 0] /\
+     forall v, In v strs -> v = hd None strs) /\
+  (ae = false ->
+     (nb < 64)%Z /\
+     col_fields (ColStr nb ae strs) =
+       FBytes nb (repeat 0%N (Z.to_nat nb)) :: FUint 6 nb :: map (fun v => FBytes nb (str_val nb v)) strs).
+Proof. exact layout_str_column_canonical. Qed.
+Print Assumptions C02_compressed_str_column_canonical.
+
+(* 203YYY: sign bit, magnitude, width 0 *)
+Theorem C02_compressed_ref_column_canonical : forall T vals outs cols w z,
+  layout_cols T vals = Ok (outs, cols) -> In (ColRef w z) cols ->
+  col_fields (ColRef w z) = [FBool (z <? 0)%Z; FUint (w - 1) (Z.abs z); FUint 6 0] /\
+  (1 < w)%Z /\ (Z.abs z < 2 ^ (w - 1))%Z.
+Proof. exact layout_ref_column_canonical. Qed.
+Print Assumptions C02_compressed_ref_column_canonical.
+
+Example C02_compressed_column_hypotheses :
+  exists outs outs2,
+    layout_cols spc_T spc_vals = Ok (outs, spc_cols) /\
+    In (ColNum 12 false [Some 2730; Some 2800; None]%Z) spc_cols /\
+    In (ColNum 8 true [Some 2; Some 2; Some 2]%Z) spc_cols /\
+    In (ColStr 4 false [Some [65;66]; Some [65;66;67;68;69]; None]%N) spc_cols /\
+    layout_cols spc_T2 spc_vals2 = Ok (outs2, spc_cols2) /\ In (ColRef 10 (-100)) spc_cols2.
+Proof. exact spc_column_hypotheses. Qed.
+
+(* the width of the increments, as a function of D = max - min, is the least k
+   with D + 2 < 2^k, and it is what the coder computes (nbits_for_uint (D + 1)) *)
+Theorem C02_canon_width_least : forall D,
+  (D + 2 < 2 ^ canon_width D)%N /\ forall k, (D + 2 < 2 ^ k)%N -> (canon_width D <= k)%N.
+Proof. exact canon_width_spec. Qed.
+Print Assumptions C02_canon_width_least.
+
+Theorem C02_canon_width_is_nbits_for_uint : forall D, canon_width D = nbits_for_uint (D + 1).
+Proof. exact canon_width_nbits. Qed.
+Print Assumptions C02_canon_width_is_nbits_for_uint.
+
+(* which column a numeric element appends: the next value of every subset; the
+   flag is Python's == of all values with the first; an all-equal column is
+   represented by its (scaled) first value *)
+Theorem C02_specc_numeric_column : forall nbits scale refval s s',
+  specc_numeric nbits scale refval s = Ok s' ->
+  exists col ae raws,
+    column_of (cs_idx s) (cs_vals s) = Ok col /\ col <> [] /\
+    ae = forallb (value_eqb (hd VNone col)) col /\
+    col_raws (raw_numeric scale refval) ae col = Ok raws /\
+    s' = mkCS (cs_cols s ++ [ColNum nbits ae raws]) (cs_vals s) (S (cs_idx s)) /\
+    col_wf (length (cs_vals s)) (ColNum nbits ae raws).
+Proof. exact specc_numeric_spec. Qed.
+Print Assumptions C02_specc_numeric_column.
+
+(* bit level: a missing increment / base / string is all ones *)
+Theorem C02_missing_increment_bits : forall wd o, (0 < wd)%Z ->
+  write_field (inc_field wd 0 None) o = Ok (o ++ ones (Z.to_nat wd)).
+Proof. exact missing_increment_bits. Qed.
+Print Assumptions C02_missing_increment_bits.
+
+Theorem C02_missing_string_bits : forall nb o, (0 <= nb)%Z ->
+  write_field (FBytes nb (str_val nb None)) o = Ok (o ++ ones (8 * Z.to_nat nb)).
+Proof. exact missing_string_bits. Qed.
+Print Assumptions C02_missing_string_bits.
+
+(* with the values in the representable range 0 .. 2^w - 2, the base is all ones
+   ONLY when every subset is missing *)
+Theorem C02_base_all_ones_iff_all_missing : forall w raws,
+  forallb (col_in_range w) raws = true ->
+  (col_min w raws = (2 ^ w - 1)%Z <-> forall v, In v raws -> v = None).
+Proof. exact base_all_ones_iff_all_missing. Qed.
+Print Assumptions C02_base_all_ones_iff_all_missing.
+Example C02_in_range_nonvacuous :
+  forallb (col_in_range 12) [Some 2730; Some 2800; None]%Z = true /\
+  forallb (col_in_range 9) [None; None; None] = true.
+Proof. exact spc_in_range. Qed.
+
+(* "width 0 exactly when all subsets agree": true of the STORED values when the
+   all-equal flag is exact ... *)
+Theorem C02_width0_iff_stored_equal : forall n w ae raws,
+  col_wf n (ColNum w ae raws) ->
+  (ae = false -> exists v v', In v raws /\ In v' raws /\ v <> v') ->
+  (nth 1 (col_fields (ColNum w ae raws)) (FBool false) = FUint 6 0 <-> forall v, In v raws -> v = hd None raws).
+Proof. exact width0_iff_stored_equal. Qed.
+Print Assumptions C02_width0_iff_stored_equal.
+Example C02_width0_hypotheses :
+  (Forall (col_wf 3) spc_cols /\ Forall (col_wf 3) spc_cols2) /\
+  exists v v', In v [Some 2730; Some 2800; None]%Z /\ In v' [Some 2730; Some 2800; None]%Z /\ v <> v'.
+Proof. exact (conj spc_columns_wf spc_exact_flag). Qed.
+
+(* ... but the flag is computed on the values GIVEN, before scaling: 273.15 and
+   273.151 (scale 1) are both stored as 2732, the column is not flagged
+   all-equal and is written with width 2 and two zero increments (finding,
+   replayed on the implementation: notes/specc.md) *)
+Theorem C02_width0_iff_stored_equal_refuted :
+  exists T vals outs w raws,
+    encode_compressed T vals = Ok (outs, w) /\
+    layout_cols T vals = Ok (outs, [ColNum 12 false raws]) /\
+    (forall v, In v raws -> v = Some 2732%Z) /\
+    col_fields (ColNum 12 false raws) = [FUint 12 2732; FUint 6 2; FUint 2 0; FUint 2 0]%Z.
+Proof. exact width0_iff_stored_equal_refuted. Qed.
+Print Assumptions C02_width0_iff_stored_equal_refuted.
+
+(* bit level: for a column in the representable range (2 <= w <= 64, values
+   0 .. 2^w - 2 or missing, spread below 2^63) the fields of the canonical column
+   are, MSB first, the reference bit layout of Column.v: base in w bits, the width
+   in 6 bits, one increment per subset, all ones for missing (the layout every
+   legal reader accepts: C05 dec_col_any_width) *)
+Theorem C02_compressed_num_column_bits : forall w raws o,
+  col_dom_num w false raws = true ->
+  write_fields (num_fields w false raws) o =
+  Ok (o ++ lay_col_num w (Z.of_N (canon_width (col_spread raws))) (Z.to_N (col_min w raws)) (raw_view raws)).
+Proof. exact num_fields_bits. Qed.
+Print Assumptions C02_compressed_num_column_bits.
+Example C02_num_column_bits_nonvacuous :
+  col_dom_num 12 false [Some 2730; Some 2800; None]%Z = true.
+Proof. reflexivity. Qed.
